@@ -283,6 +283,16 @@ def stepLine (s : DState) (w : List String) : DState × String :=
             let r := slot.enc.toLL.encode batch c
             ({ s with encs := upsert s.encs e { enc := { slot.enc with seqc := r.1.seqc, curMt := r.1.mt }, frames := r.2 } },
               s!"frames {r.2.length}" ++ String.join (r.2.map fun f => " " ++ toHex f))
+      else if kind == "encodeacc" then
+        if !c.ok then (s, "bad-ctx")
+        else
+          let batch := ids.map (lookup s.pkts)
+          if batch.any (fun p => p.payload.isNone) then (s, "bad-batch")
+          else
+            let r := slot.enc.encode batch c
+            let frames := r.2.map (EFrame.bytes c.min)
+            ({ s with encs := upsert s.encs e { enc := r.1, frames := slot.frames ++ frames } },
+              s!"frames {frames.length}" ++ String.join (frames.map fun f => " " ++ toHex f))
       else if kind != "encode" && kind != "encodep" && kind != "encode1" then (s, "bad-op")
       else if kind == "encode1" && ids.length != 1 then (s, if c.ok then "bad-batch" else "bad-ctx")
       else if !c.ok then (s, "bad-ctx")
